@@ -47,9 +47,10 @@ ASSUMPTIONS = [
     'sides concerned (new node coordinates are rounded floats; at map coordinates of 6e6 m that is 4e-9 m)',
     'reference rock volume of a column = exact area x (surface - bottom of the lowest layer) when positive',
     'refine() only on regions where the region and every neighbour of it is 3- or 4-sided (documented requirement)',
-    'bisect_edge_columns = the columns of the transition region, i.e. the outside columns that the same refinement '
-    'without bisect_edge_columns replaces by transition columns (the documented meaning); outside neighbours that '
-    'share no refined side with the region are not passed (refine() raises TypeError on them - not judged here)',
+    'bisect_edge_columns: (a) the columns of the transition region, i.e. the outside columns that the same refinement '
+    'without bisect_edge_columns replaces by transition columns; (b) with a bisect mode also every outside neighbour '
+    'of the region ("columns outside the edge of the refinement area"), some of which touch no refined side - these '
+    'must be left as they are; columns not adjacent to the region are not passed',
     'the connection <-> common-side clause is asserted for the documented methods (refine, split_column, '
     'decompose_columns); for the undocumented helper triangulate_column only area, volume, surface and tiling '
     '(it leaves connections to its caller)',
@@ -64,6 +65,8 @@ BOUNDS = {
               'map coordinates': 'r3x3far, t8far (3-6 m columns at (2780000.37, 6280000.81)): singles, neighbour pairs, disks, '
                                  'rings, full x 4 modes x 2 edge options; split_column; the polygons at rotation 0; '
                                  'g2 with its corner refined once: corner column, its ring, both, and refine>refine',
+              'three steps': 'split_column > refine (one piece / both) > refine (everything created) on r3x3, mixed6',
+              'layer tops': 'refine_layers also on the 3 x 3 with its top at 137.5 m and on the shipped g5 (top away from 0)',
               'compositions': 'split> on r3x3, mixed6; refine>refine on r3x3, t8 singles; polygon>refine at rotation 0, piece 0 and all'},
     'thorough': {'geometries': ['r3x3', 'r4x3', 't8', 'mixed6', 'mixed6+decomposed', 'polygons', 'layers',
                                 'r3x3+refined', 'r4x3+refined', 't8+refined', 'g7', 'g7+refined(sample)'],
@@ -219,6 +222,21 @@ def base(name):
         geo = geo_rect(*R3)
         with quiet():
             geo.rename_layer([' 3', ' 2', ' 1', ' 0'], [' 4', ' 3', ' 2', ' 1'])
+    elif root == 'r3x3z':
+        # the same 3 x 3, the top of the model at 137.5 m instead of 0
+        import mulgrids
+        with quiet():
+            geo = mulgrids.mulgrid().rectangular(R3[0], R3[1], R3[2], atmos_type=2, origin=[0., 0., 137.5])
+            for i, z in R3[3]:
+                col = geo.columnlist[i]
+                col.surface = z + 137.5
+                geo.set_column_num_layers(col)
+            geo.setup_block_name_index()
+            geo.setup_block_connection_name_index()
+    elif root == 'g5':
+        import mulgrids
+        with quiet():
+            geo = mulgrids.mulgrid(os.path.join(core.REPO, 'tests', 'mulgrid', 'g5.dat'))
     elif root == 'r3x3far':
         # columns 3-6 m wide at map coordinates, not exactly representable (so sums of products round)
         geo = geo_rect([3.3, 5.7, 4.1], [4.3, 3.1, 5.9], R3[2], R3[3], origin=FAR)
@@ -694,6 +712,14 @@ def compose_cases(tier):
                     thens += [{'op': 'refine', 'bisect': True}, {'op': 'refine', 'bisect': 'x'}]
                 for t in thens:
                     cases.append(dict(c, then=dict(t, piece=piece)))
+    # three steps: split_column, refine of the pieces (one / both; their neighbours become transition columns),
+    # refine of everything created so far - names freed by one step are handed out again by the next
+    for g in (['r3x3', 'mixed6'] if tier == 'quick' else ['r3x3', 'mixed6', 'r4x3']):
+        for c in split_cases(g):
+            for piece in (0, 'all'):
+                for b2 in ((False,) if tier == 'quick' else (False, True)):
+                    cases.append(dict(c, then={'op': 'refine', 'bisect': False, 'piece': piece},
+                                      then2={'op': 'refine', 'bisect': b2, 'piece': 'all'}))
     for g in (['r3x3', 't8'] if tier == 'quick' else ['r3x3', 't8', 'r4x3', 'mixed6+decomposed']):
         for c in refine_cases(g, 'singles', edge_options=(False,)):
             if c['op'] != 'refine':
@@ -802,10 +828,11 @@ def run_case(case):
                 geo.refine_layers(names, factor=case['factor'])
             else:
                 raise core.HarnessError('unknown op %r' % kind)
-            if case.get('then'):
-                # second step of a composition, applied to the columns the first step created; the result is
+            for t in (case.get('then'), case.get('then2')):
+                if not t:
+                    continue
+                # a further step of a composition, applied to the columns created so far; the result is
                 # judged against the ORIGINAL columns below
-                t = case['then']
                 first_site = site
                 site = SITE[t['op']]
                 klass = 'after=%s,%s' % (first_site, klass)
@@ -853,7 +880,8 @@ def run_case(case):
         found += judge_layers(before, geo, case)
     viol = [('%s|%s|%s|%s' % (ID, site, clause, klass), 'after %s: %s' % (site, text)) for clause, text in found]
     nontrivial = stats.get('changed', 0) > 0 or (kind == 'refine_layers')
-    outcome = '%s%s:%s' % (kind, '>' + case['then']['op'] if case.get('then') else '',
+    outcome = '%s%s%s:%s' % (kind, '>' + case['then']['op'] if case.get('then') else '',
+                             '>' + case['then2']['op'] if case.get('then2') else '',
                            'changed' if nontrivial else 'unchanged')
     return viol, nontrivial, outcome, stats
 
@@ -952,10 +980,16 @@ def split_cases(gname):
             for i, c in enumerate(cols) if len(c.node) == 4 for n in c.node]
 
 
-def layer_cases(gname):
+def layer_cases(gname, few=False):
     geo = base(gname)
     nl = len(geo.layerlist) - 1
     cases = []
+    if few:
+        # a shipped geometry with many layers: all layers, the first, the last, a middle pair
+        for f in (2, 3):
+            for L in ([], [1], [nl], [nl // 2, nl // 2 + 1]):
+                cases.append({'op': 'refine_layers', 'geo': gname, 'layers': L, 'factor': f})
+        return cases
     for f in (2, 3, 4):
         cases.append({'op': 'refine_layers', 'geo': gname, 'layers': [], 'factor': f})
         for k in range(1, nl + 1):
@@ -990,6 +1024,8 @@ def all_cases(tier):
     family(layer_cases, 'r4x3')
     family(layer_cases, 't8')
     family(layer_cases, 'r3x3n')
+    family(layer_cases, 'r3x3z')
+    family(layer_cases, 'g5', few=True)
     # the same small geometries with columns of 3-6 m at map coordinates (2.78e6, 6.28e6), and the shipped
     # geometry that lives there, refined in its corner
     family(refine_cases, 'r3x3far', 'families' if tier == 'quick' else 'all')
@@ -1075,6 +1111,7 @@ def run_unit(unit, tier, rec):
         rec.count('lattice_on_side', stats.get('on_side', 0))
         rec.count('old_columns_replaced', stats.get('changed', 0))
         rec.count('cases:' + case['op'] + ('>' + case['then']['op'] if case.get('then') else '') +
+                  ('>' + case['then2']['op'] if case.get('then2') else '') +
                   (':' + case['geo'] if 'geo' in case else ''), 1)
         if nontrivial and not sampled and lo % 5 == 0:
             sampled = True
